@@ -47,7 +47,19 @@ class CZ(decio.Concretiser):
 
     def name(self, a):
         if a.startswith("R") and a[1:].isdigit() and a not in self.names:
-            self._bind(a, self._pick(_REAL))
+            # real particles with pairwise distinct reference widths, so that an observed default width
+            # identifies the particle it was taken from
+            from particle import Particle
+            used = getattr(self, "_widths", set())
+            for _ in range(1000):
+                w = self._pick(_REAL)
+                width = Particle.from_evtgen_name(w).width
+                lit_vals = {float(decio.lit_value(x)) for x in decio.LITERAL_SPELLINGS}
+                if width not in used and width > 0 and width / 1000.0 not in lit_vals and -width / 1000.0 not in lit_vals:
+                    break
+            used.add(width)
+            self._widths = used
+            self._bind(a, w)
         return super().name(a)
 
     def lit(self, a):
@@ -161,6 +173,8 @@ def build(args):
                 wt = cz.rnum(w)
                 if wt.startswith("?"):
                     for a, c in cz.names.items():
+                        if not (a.startswith("R") and a[1:].isdigit()):
+                            continue
                         try:
                             if Particle.from_evtgen_name(c).width / 1000.0 == w:
                                 wt = "ref:" + a
